@@ -44,7 +44,7 @@ template <> int type_properties<axis *>::id(bool)
 
 template <> int type_properties<text *>::id(bool)
 {
-	return mpt_axis_pointer_typeid();
+	return mpt_text_pointer_typeid();
 }
 
 template <> int type_properties<world *>::id(bool)
